@@ -182,6 +182,44 @@ def restoreLeafWith {L : Type} (store : L → Option Bytes) (rd : Nat → List N
           | .ok t => .ok (.tensor t)
           | .error e => .error (.serial e)
 
+/-- The output tensor `prepare_read` works on (`can_load_inplace`, tensor.py 103-104 / chunked_tensor.py 117-120): the
+caller's tensor when its dtype and shape equal the entry's, else a fresh `empty_tensor_from_entry` (zeros here). Only
+its bytes matter below. -/
+def destBytes (dtype : String) (shape : List Nat) (es : Nat) (dst : Option Ts.Serial.Tensor) : Bytes :=
+  match dst with
+  | some t => if t.dtype = dtype ∧ t.shape = shape then t.bytes else List.replicate (Ts.Chunk.numel shape * es) 0
+  | none => List.replicate (Ts.Chunk.numel shape * es) 0
+
+/-- `restoreLeafWith` with the restore target made explicit: `dst = none` (allocate), a pre-allocated tensor of the
+entry's dtype and shape (filled in place: a plain tensor is overwritten as a whole by `copy_`, a chunked one chunk by
+chunk through dim-0 views, in completion order), or a mismatching tensor (replaced by a fresh one). -/
+def restoreLeafInto {L : Type} (store : L → Option Bytes) (rd : Nat → List Nat → ULoc L → Except Err Bytes)
+    (order : List ((Nat × Nat) × ULoc L) → List ((Nat × Nat) × ULoc L)) (dst : Option Ts.Serial.Tensor) :
+    LeafEntryG L → Except Err Leaf
+  | .blob u => (readUnit store u).map .blob
+  | .tensor dtype shape u =>
+    match Ts.Serial.torchItemsize dtype with
+    | none => .error .unknownDtype
+    | some es =>
+      match rd es shape u with
+      | .error e => .error e
+      | .ok buf => match Ts.Serial.fromMemoryview dtype shape buf with
+        | .ok t => .ok (.tensor t)            -- `dst.copy_(loaded)`: every element of the destination is overwritten
+        | .error e => .error (.serial e)
+  | .chunked dtype shape chunks =>
+    match Ts.Serial.torchItemsize dtype with
+    | none => .error .unknownDtype
+    | some es =>
+      match mapE (fun c => (rd es (c.1.2 :: (Ts.Chunk.normShape shape).2) c.2).map (fun b => (pieceRange shape es c.1, b)))
+          (order chunks) with
+      | .error e => .error e
+      | .ok done =>
+        match Ts.Slab.stageOnto (destBytes dtype shape es dst) done with
+        | .error e => .error (.slab e)
+        | .ok buf => match Ts.Serial.fromMemoryview dtype shape buf with
+          | .ok t => .ok (.tensor t)
+          | .error e => .error (.serial e)
+
 /-- `restore`: every unit is read with one ranged read. -/
 def restoreLeaf {L : Type} (store : L → Option Bytes) (order : List ((Nat × Nat) × ULoc L) → List ((Nat × Nat) × ULoc L)) :=
   restoreLeafWith store (fun _ _ u => readUnit store u) order
